@@ -54,9 +54,9 @@ func (c *c08Case) final(env *Env) string {
 	var cause error
 	var tc int64
 	switch c.source {
-	case "ctx":
+	case "ctx", "ctxcause":
 		cause, tc = context.Canceled, x.CancelTime
-	case "deadline":
+	case "deadline", "deadlinecause":
 		cause, tc = context.DeadlineExceeded, int64(c.at)
 	case "async":
 		cause, tc = failsafe.ErrExecutionCanceled, x.CancelTime
@@ -125,7 +125,7 @@ func (c *c08Case) final(env *Env) string {
 func c08Scenarios(tier string) []*Scenario {
 	bound := 2
 	if tier == "thorough" {
-		bound = 3
+		bound = 4
 	}
 	const R = 40 * time.Nanosecond // retry delay
 	var out []*Scenario
@@ -136,6 +136,10 @@ func c08Scenarios(tier string) []*Scenario {
 			es.Ctx, es.CancelAt = "cancel", c.at
 		case "deadline":
 			es.Ctx, es.CancelAt = "deadline", c.at
+		case "ctxcause":
+			es.Ctx, es.CancelAt = "cancelcause", c.at
+		case "deadlinecause":
+			es.Ctx, es.CancelAt = "deadlinecause", c.at
 		case "async":
 			es.Async, es.CancelAsync, es.CancelAt = true, true, c.at
 		}
@@ -144,6 +148,7 @@ func c08Scenarios(tier string) []*Scenario {
 				c.fbIn = c.source != "timeout"
 			}
 		}
+		_ = errCustomCause
 		out = append(out, &Scenario{
 			Name:  fmt.Sprintf("C08/%s/%s@%d [%s] %s", c.name, c.source, int64(c.at), stackStr(c.stack), scriptStr(c.script)),
 			Bound: bound, Reduce: true,
@@ -175,7 +180,11 @@ func c08Scenarios(tier string) []*Scenario {
 	// cancellation instants: before the first attempt (0), inside an attempt (10), exactly at its end
 	// (20), inside the delay (40), exactly when the delay ends (60), inside the second attempt (70)
 	for _, src := range sources {
-		for _, at := range []time.Duration{0, 10, 20, 40, 60, 70} {
+		instants := []time.Duration{0, 10, 20, 40, 60, 70}
+		if tier == "thorough" {
+			instants = []time.Duration{0, 1, 10, 19, 20, 21, 40, 59, 60, 61, 70, 80, 100, 120, 140}
+		}
+		for _, at := range instants {
 			if src == "deadline" && at == 0 {
 				continue
 			}
@@ -195,6 +204,21 @@ func c08Scenarios(tier string) []*Scenario {
 		}
 		add(prepare(&c08Case{name: "fallback(hedge)", stack: []Spec{fb, hedge}, script: hs, source: src, at: 10}))
 		add(prepare(&c08Case{name: "retry(hedge)", stack: []Spec{retry, hedge}, script: hs, source: src, at: 50}))
+	}
+	// contexts cancelled with a custom cause still report context.Canceled / DeadlineExceeded
+	for _, src := range []string{"ctxcause", "deadlinecause"} {
+		add(prepare(&c08Case{name: "retry", stack: []Spec{retry}, script: failing, source: src, at: 40}))
+		add(prepare(&c08Case{name: "retry", stack: []Spec{retry}, script: failing, source: src, at: 10}))
+		add(prepare(&c08Case{name: "hedge", stack: []Spec{hedge}, script: []Out{coop(200, E1, 0)}, source: src, at: 100}))
+	}
+	// waiting policies outside the retry policy: the cancellation reaches them directly
+	limWait := Spec{Kind: KLimiter, Smooth: true, Interval: 100, LWait: 1000, Used: 1}
+	bulkWait := Spec{Kind: KBulkhead, Conc: 1, Held: 1, BWait: 100}
+	for _, src := range sources {
+		add(prepare(&c08Case{name: "limiter-wait(retry)", stack: []Spec{limWait, retry}, script: failing, source: src, at: 30}))
+		add(prepare(&c08Case{name: "bulkhead-wait(retry)", stack: []Spec{bulkWait, retry}, script: failing, source: src, at: 30}))
+		add(prepare(&c08Case{name: "breaker(limiter-wait(retry))", stack: []Spec{{Kind: KBreaker, FT: 5, FC: 5, BDelay: time.Hour}, limWait, retry}, script: failing, source: src, at: 30}))
+		add(prepare(&c08Case{name: "fallback(limiter-wait(hedge))", stack: []Spec{fb, limWait, hedge}, script: []Out{coop(200, E1, 0)}, source: src, at: 30}))
 	}
 	// enclosing Timeout as the source (it is part of the program: the outcome is the program's)
 	T := func(l time.Duration) Spec { return Spec{Kind: KTimeout, Limit: l} }
